@@ -379,6 +379,47 @@ def build_catalogue():
     op("fail.hrnp.truncated", "shared")(lambda: ((lambda: (HEX("7e04000020100001001b43b5024718"),)), (lambda d: HRNP.from_bytes(d))))
     op("fail.hdap.unknown_service", "shared")(lambda: ((lambda: (HEX("7f000100010000"),)), (lambda d: HDAP.from_bytes(d))))
     op("fail.mbxml.truncated", "shared")(lambda: ((lambda: (LR[:-3],)), (lambda d: MBXML.from_bytes(d))))
+    # calls that fail *late*: the argument is consumed piece by piece and a later piece is invalid (a half-updated shared register)
+    LATE_BITS = [0, 1, 1, 0, 1, 0, 0, 1, 1, 1, 0, 0, 2, 0, 1, 1, 0, 0, 0, 1, 1, 1, 0, 1, 1, 0, 1, 0]
+
+    class _LateSlices:
+        """a bit container whose slices beyond the first octet cannot be read (an I/O-backed buffer that went away)"""
+
+        def __init__(self, b):
+            self.b = b
+
+        def __len__(self):
+            return len(self.b)
+
+        def __getitem__(self, i):
+            if isinstance(i, slice) and (i.start or 0) >= 8:
+                raise ValueError("late")
+            return self.b[i]
+
+        def bytereverse(self):
+            return None
+
+    op("fail.crc8.late_bad_bit", "shared")(lambda: ((lambda: (list(LATE_BITS),)), (lambda b: CRC8.calculate(b))))
+    op("fail.crc8.late_unreadable_slice", "shared")(lambda: ((lambda: (ba(MSG_A[:28]),)), (lambda b: CRC8.calculate(_LateSlices(b)))))
+    op("fail.crc9.late_bad_bit", "shared")(lambda: ((lambda: (list(LATE_BITS) * 3,)), (lambda b: CRC9.calculate(b, CrcMasks.Rate34DataContinuation))))
+    op("fail.crc9.late_unreadable_slice", "shared")(lambda: ((lambda: (ba(MSG_A[:87]),)), (lambda b: CRC9.calculate(_LateSlices(b), CrcMasks.Rate34DataContinuation))))
+    op("fail.crc32.late_bad_byte", "shared")(lambda: ((lambda: ([1, 2, 3, 4, 5, 6, 7, 8, 300, 10],)), (lambda d: CRC32.calculate(d))))
+    for cname, cfg in (("crc8", Crc8.ETSI_DMR), ("crc9", Crc9.ETSI_DMR), ("crc16", Crc16.ETSI_DMR), ("crc32", Crc32.ETSI_DMR)):
+        for tb in (False, True):
+            def fl(cfg=cfg, tb=tb):
+                return (lambda: (ba(MSG_A),)), (lambda b: BitCrcCalculator(cfg, table_based=tb).calculate_checksum(_LateSlices(b)))
+            op(f"fail.{cname}_{'table' if tb else 'bitwise'}.late_unreadable_slice", "shared")(fl)
+    # bit/byte helpers on arguments whose length is not a whole number of octets
+    from okdmr.dmrlib.utils.bits_bytes import bits_to_bytes, numpy_array_to_bitarray, bitarray_to_numpy_array, numpy_array_to_int, half_byte_to_bytes
+    op("bits_to_bytes_77")(lambda: ((lambda: (ba((MSG_A + MSG_B)[:77]),)), (lambda b: bits_to_bytes(b))))
+    op("bits_to_bytes_80")(lambda: ((lambda: (ba((MSG_A + MSG_B)[:80]),)), (lambda b: bits_to_bytes(b))))
+    op("bits_to_bytes_49_little")(lambda: ((lambda: (bitarray(MSG_B[:49], endian="little"),)), (lambda b: bits_to_bytes(b))))
+    op("bytes_to_bits_little")(lambda: ((lambda: (bytearray(b"\xa5\x0f\x01"),)), (lambda d: bytes_to_bits(d, "little"))))
+    op("numpy_array_to_bitarray")(lambda: ((lambda: (numpy.array([1, 0, 1, 1, 0, 0, 1, 0, 1, 1, 1]),)), (lambda a: numpy_array_to_bitarray(a))))
+    op("bitarray_to_numpy_array")(lambda: ((lambda: (ba(MSG_A[:13]),)), (lambda b: bitarray_to_numpy_array(b))))
+    op("numpy_array_to_int")(lambda: ((lambda: (numpy.array([1, 0, 1, 1, 0, 0, 1, 0, 1, 1, 1]),)), (lambda a: numpy_array_to_int(a))))
+    op("half_byte_to_bytes")(lambda: ((lambda: ()), (lambda: (half_byte_to_bytes(0xA), half_byte_to_bytes(0x3, 4)))))
+    op("udpip.roundtrip_odd_length", "parse")(lambda: ((lambda: (bits_of(HEX("00010000" "0fa7" "0fa7" "41424344")),)), (lambda b: UDPIPv4CompressedHeader.from_bits(b).as_bits())))
     op("fail.mbxml.uintvar_too_big", "shared")(lambda: ((lambda: ()), (lambda: MBXML.write_uintvar(2 ** 40))))
     op("fail.tms.truncated", "shared")(lambda: ((lambda: (HEX("000ea00000"),)), (lambda d: TextMessagingService.from_bytes(d))))
     op("fail.ars.truncated", "shared")(lambda: ((lambda: (HEX("0010F50002313109"),)), (lambda d: AutomaticRegistrationService.from_bytes(d))))
@@ -437,12 +478,28 @@ def run_op(name):
         rd = "raises:" + type(e).__name__
         short = rd
     after = h(canon(args, skip=SKIP))
+    ok = (before == after) or ("inplace" in flags)
     if res is not None:
+        # looking at what a call returned (repr, str, ==, len, hash) must not change it
+        if ok and not isinstance(res, (bytes, int, str, bool, float)):
+            try:
+                _observe(res, light=True)
+                if h(canon(res, skip=SKIP)) != rd:
+                    ok = False
+                    short += "|CHANGED-BY-LOOKING"
+            except Exception:  # noqa: BLE001
+                pass
         scribble(res)
-    return rd, (before == after) or ("inplace" in flags), short
+    return rd, ok, short
 
 
-from mc.hist import scribble as _scribble_buffers, scramble_shallow  # noqa: E402
+def why(short, name):
+    if short.endswith("|CHANGED-BY-LOOKING"):
+        return "result_object_changes_when_looked_at:" + name, f"the object {name} returned differs after repr()/str()/==/len()/hash() on it"
+    return "argument_buffer_modified:" + name, f"{name} changed a buffer passed to it"
+
+
+from mc.hist import scribble as _scribble_buffers, scramble_shallow, observe as _observe  # noqa: E402
 
 
 def scribble(res):
@@ -497,8 +554,9 @@ def w_sequences(task):
         last = seq[-1]
         case = {"sequence": list(seq)}
         dirty = [seq[i] for i, (_, ok, _) in enumerate(res) if not ok]
-        for d_ in set(dirty):
-            acc.violation("argument_buffer_modified:" + d_, case, f"{d_} changed a buffer passed to it")
+        dirty_short = {seq[i]: sh for i, (_, ok, sh) in enumerate(res) if not ok}
+        for d_ in sorted(set(dirty)):
+            acc.violation(*why(dirty_short[d_], d_)[:1], case, why(dirty_short[d_], d_)[1])
         if len(res) != len(seq):
             acc.violation("child_crashed", {**case, "detail": res[0][0]})
         elif res[-1][0] != FRESH[last][0]:
@@ -518,7 +576,7 @@ def w_pairs_from(first):
             acc = Acc()
             res_i = run_op(first)
             if not res_i[1]:
-                acc.violation("argument_buffer_modified:" + first, {"sequence": [first]}, f"{first} changed a buffer passed to it")
+                acc.violation(why(res_i[2], first)[0], {"sequence": [first]}, why(res_i[2], first)[1])
             for j in OPS:
                 res = run_sequence_isolated([j])  # forked from this child: state = after `first`
                 case = {"sequence": [first, j]}
@@ -526,7 +584,7 @@ def w_pairs_from(first):
                     acc.violation("child_crashed", {**case, "detail": str(res[0][0])[:200]})
                 else:
                     if not res[0][1]:
-                        acc.violation("argument_buffer_modified:" + j, case, f"{j} changed a buffer passed to it")
+                        acc.violation(why(res[0][2], j)[0], case, why(res[0][2], j)[1])
                     if res[0][0] != FRESH[j][0]:
                         acc.violation(f"result_depends_on_history:{j}", {**case, "fresh": FRESH[j][2], "after_history": res[0][2]},
                                       f"{j} returns a different result after {[first]} than in a fresh interpreter state")
@@ -598,7 +656,7 @@ def run(only=None):
     for n, r in zip(names, par.pmap(lambda n: run_sequence_isolated([n])[0], names)):
         FRESH[n] = r
         if not r[1]:
-            s.violation("argument_buffer_modified:" + n, {"sequence": [n]}, f"{n} changed a buffer passed to it")
+            s.violation(why(r[2], n)[0], {"sequence": [n]}, why(r[2], n)[1])
         s.case(nontrivial=True, outcome=r[2], sample={"op": n, "result": r[2]} if len(s.samples) < 2 else None)
     import concurrent.futures as _cf
 
@@ -642,7 +700,8 @@ def run(only=None):
             core = ["CRC8.calculate_A", "CRC8.calculate_A_padded32", "CRC9.from_parts_crc32", "CRC9.calculate_bits", "CRC16.calculate_hdr", "CRC32.calculate_odd",
                     "crc9_table_m1", "crc16_table_m0", "rcp.default_ctor_add_setting", "rcp.default_ctor_serialise", "lrrp.get_token_with_attribute",
                     "lrrp.get_token_plain", "burst.default_ctor_then_write", "dataheader.default_ctor_then_write", "bptc.encode", "bptc.decode_reserved_bits_set",
-                    "fail.crc.bytes_instead_of_bits", "fail.bptc.decode_195"]
+                    "fail.crc.bytes_instead_of_bits", "fail.bptc.decode_195", "fail.crc8.late_bad_bit", "fail.crc9.late_unreadable_slice",
+                    "fail.crc16_table.late_unreadable_slice"]
             shared = [n for n in core if n in OPS]
         s = rep.sub("shared_state_triples", f"all ordered triples over the {len(shared)} ops that touch shared state (CRC singletons, cached table, class tables, defaults)")
         triples = [(a, b, c) for a in shared for b in shared for c in shared]
